@@ -4,6 +4,7 @@ import (
 	"go/ast"
 	"go/token"
 	"go/types"
+	"strings"
 
 	"j5verif/checker/core"
 )
@@ -181,4 +182,104 @@ func descriptionWordsBySpace(r *core.Run) {
 	if n == 0 {
 		r.Fatal("R-CONST/words: no loop over the words of a line found in reformatDescription")
 	}
+}
+
+// headerDescriptionOneToken (R-SYM/headerdesc): the formatter prints a block
+// header as one line of tokens and appends the tokens of the header's
+// description to it as they are. Each DESCRIPTION token renders as `| text`,
+// so two of them on one line read back as one description whose text contains
+// a bar — other words than the source had. A description stored in a block
+// header therefore holds exactly one token (a standalone description, which
+// the formatter re-flows over lines, may hold many).
+func headerDescriptionOneToken(r *core.Run) {
+	r.Rule("R-SYM/headerdesc", "where the formatter appends <header>.Description.Tokens to the single line of a block header, every Description the parser stores in a BlockHeader is a literal whose Tokens is a one-element list: a header description of several tokens would be glued onto one line as `| a| b` and read back with other words")
+	pk := r.P.Pkg(parserRel)
+	if pk == nil {
+		r.Fatal("anchor: package %s not found", parserRel)
+		return
+	}
+	info := pk.TypesInfo
+	// premise: the formatter spreads Description.Tokens into a token list
+	premise := false
+	core.AllFuncDecls(pk, func(fd *ast.FuncDecl) {
+		if fd.Body == nil {
+			return
+		}
+		ast.Inspect(fd.Body, func(n ast.Node) bool {
+			c, ok := n.(*ast.CallExpr)
+			if !ok || !c.Ellipsis.IsValid() || len(c.Args) == 0 {
+				return true
+			}
+			if sel, ok := core.Unparen(c.Args[len(c.Args)-1]).(*ast.SelectorExpr); ok && sel.Sel.Name == "Tokens" {
+				if inner, ok := core.Unparen(sel.X).(*ast.SelectorExpr); ok && inner.Sel.Name == "Description" {
+					premise = true
+				}
+			}
+			return true
+		})
+	})
+	n := 0
+	core.AllFuncDecls(pk, func(fd *ast.FuncDecl) {
+		if fd.Body == nil {
+			return
+		}
+		ast.Inspect(fd.Body, func(nd ast.Node) bool {
+			as, ok := nd.(*ast.AssignStmt)
+			if !ok || len(as.Lhs) != 1 || len(as.Rhs) != 1 {
+				return true
+			}
+			l, ok := core.Unparen(as.Lhs[0]).(*ast.SelectorExpr)
+			if !ok || l.Sel.Name != "Description" || !strings.HasSuffix(core.TypeStr(info.TypeOf(l.X)), "parser.BlockHeader") {
+				return true
+			}
+			n++
+			o := r.Add("R-SYM/headerdesc", parserRel+"."+core.FuncName(fd)+" | header description", as.Pos(), "description stored in a block header")
+			if !premise {
+				o.Auto("the formatter does not put the description's tokens on the header's line")
+				return true
+			}
+			// &desc / &Description{…}
+			rhs := core.Unparen(as.Rhs[0])
+			if u, ok := rhs.(*ast.UnaryExpr); ok {
+				rhs = core.Unparen(u.X)
+			}
+			if id, ok := rhs.(*ast.Ident); ok {
+				// the one `desc := …` / `desc = …` of the local (its address is taken right here)
+				obj := info.ObjectOf(id)
+				var def ast.Expr
+				defs := 0
+				ast.Inspect(fd.Body, func(m ast.Node) bool {
+					if das, ok := m.(*ast.AssignStmt); ok && len(das.Lhs) == len(das.Rhs) {
+						for i, dl := range das.Lhs {
+							if did, ok := dl.(*ast.Ident); ok && info.ObjectOf(did) == obj {
+								def = das.Rhs[i]
+								defs++
+							}
+						}
+					}
+					return true
+				})
+				rhs = nil
+				if defs == 1 && def != nil {
+					rhs = core.Unparen(def)
+				}
+			}
+			cl, isLit := rhs.(*ast.CompositeLit)
+			one := false
+			if isLit {
+				if tk := litKey(cl, "Tokens"); tk != nil {
+					if tl, ok := core.Unparen(tk).(*ast.CompositeLit); ok && len(tl.Elts) == 1 {
+						one = true
+					}
+				}
+			}
+			if one {
+				o.Auto("a literal with a one-element token list")
+			} else {
+				o.Fail("the description stored in the header is not a literal with exactly one token (it comes from a function that may collect several `|` lines): the formatter puts all its tokens on the header's line, `| first| second`, and the text read back has other words")
+			}
+			return true
+		})
+	})
+	r.Floor("R-SYM/headerdesc", 1, "walkStatement")
 }
